@@ -805,6 +805,8 @@ impl StateMachine for RocksDBStateMachine {
         let mut batch = WriteBatchWithIndex::new(0, true);
         let mut highest_index_entry: Option<LogId> = None;
         let mut results = Vec::with_capacity(chunk.len());
+        // Set when this chunk registered or cancelled a TTL.
+        let mut lease_changed = false;
 
         for entry in chunk {
             if let Some(prev) = highest_index_entry {
@@ -836,10 +838,12 @@ impl StateMachine for RocksDBStateMachine {
                         let lease =
                             self.lease.as_ref().expect("lease always initialized by NodeBuilder");
                         lease.register(key.clone(), *ttl);
+                        lease_changed = true;
                     } else if let Some(ref lease) = self.lease {
                         // A write without TTL replaces the key; an earlier TTL must not
                         // delete the new value.
                         lease.unregister(key);
+                        lease_changed |= lease.has_lease_keys();
                     }
 
                     results.push(ApplyResult::success(entry.index));
@@ -848,6 +852,7 @@ impl StateMachine for RocksDBStateMachine {
                     batch.delete_cf(&cf, key);
                     if let Some(ref lease) = self.lease {
                         lease.unregister(key);
+                        lease_changed |= lease.has_lease_keys();
                     }
                     results.push(ApplyResult::success(entry.index));
                 }
@@ -873,6 +878,7 @@ impl StateMachine for RocksDBStateMachine {
                         batch.put_cf(&cf, key, new_value);
                         if let Some(ref lease) = self.lease {
                             lease.unregister(key);
+                            lease_changed |= lease.has_lease_keys();
                         }
                     }
 
@@ -901,6 +907,13 @@ impl StateMachine for RocksDBStateMachine {
             })?;
             batch.put_cf(&meta_cf, LAST_APPLIED_INDEX_KEY, highest.index.to_be_bytes());
             batch.put_cf(&meta_cf, LAST_APPLIED_TERM_KEY, highest.term.to_be_bytes());
+            // TTL registrations are persisted with the entries that made them; otherwise a
+            // crash (which no longer re-applies these entries) would drop them for good.
+            if lease_changed {
+                if let Some(ref lease) = self.lease {
+                    batch.put_cf(&meta_cf, TTL_STATE_KEY, lease.to_snapshot());
+                }
+            }
         }
 
         db.write_wbwi(&batch).map_err(|e| StorageError::DbError(e.to_string()))?;
